@@ -191,8 +191,8 @@ def gen_spec(rng, sim=None, multi=None, nmax=5):
                     if a in ('initial_orders', 'initial_shipments', 'initial_inventory_level'): pa[a] = int(pa[a])
                     if a == 'order_capacity' and pa[a] == 0: pa[a] = 4
             if rng.random() < 0.15: pa['name'] = 'prod %d' % k
-            if not sim and rng.random() < 0.06: pa['demand_source'] = 'None'
-            if not sim and 'inventory_policy' not in pa and rng.random() < 0.06: pa['inventory_policy'] = 'None'
+            if not sim and rng.random() < 0.2: pa['demand_source'] = 'None'
+            if not sim and 'inventory_policy' not in pa and rng.random() < 0.2: pa['inventory_policy'] = 'None'
             d = spec['demand'].get(i)
             if isinstance(d, dict) and 'pk' not in d and len(spec['products'][i]) > 1 and rng.random() < 0.5 and 'demand_source' not in pa:
                 pa['demand_source'] = gen_demand(rng, T)
@@ -396,8 +396,6 @@ def compare_networks(s0, s1, what, expect_no_state_vars=False, lenient=None):
             bad.append((KNOWN_D1, '%s: %s stored None came back as derived value %r' % (what, path, b))); continue
         if re.search(r"/'_products'\[\d+\]/'_inventory_policy'/'_node'$", path) and b is None:
             lenient.append('policy-node'); continue        # documented: product-level policy node link is not restored
-        if re.search(r"/'_products'\[\d+\]/'(demand_source|_inventory_policy)'$", path) and a is None and is_default_obj(b):
-            lenient.append('none-default'); continue        # product level: None and the default object are equivalent (documented in the claim)
         if expect_no_state_vars and re.search(r"/'_nodes'\[\d+\]/'state_vars'$", path) and (b == [] or b is None):
             continue        # load_instance(ignore_state_vars=True) / omit_state_vars=True
         attr = [a for a in re.findall(r"'([^']+)'", path) if re.match(r'[A-Za-z_<]', a) and a != 'null']
@@ -761,7 +759,6 @@ def roundtrip_oracle(chk, case, spec, net, files):
                 for path, msg, x, y in diff(t0[k], t1[k], limit=5):
                     if re.search(r"'(_mean|_standard_deviation)'$", path) and x is None: continue      # reported above under the known signature
                     if path.endswith("'_node'") and y is None: continue
-                    if x is None and is_default_obj(y): continue
                     b.append(('%s|get_attribute' % what, '%s: get_attribute %s %s: %s' % (what, k, path, msg)))
         for n in reloaded.nodes:
             if n.network is not reloaded: b.append(('%s|node.network' % what, 'node %d .network is not the reloaded network' % n.index))
@@ -1150,7 +1147,7 @@ def run(chk):
     chk.assume += ['numbers are exact rationals in the model; int/float distinction, NaN/Infinity, sets, callables (holding/stockout cost functions) are not modelled',
                    'dict keys are ints, None or strings that do not look numeric; strings are printable ASCII',
                    'attributes not declared in _DEFAULT_VALUES (purchase_cost, problem_specific_data, Policy.product_index) are outside the compared state',
-                   'product-level policy node links are not restored (documented); product-level None-valued demand_source/inventory_policy are equivalent to the default object']
+                   'product-level policy node links are not restored (documented)']
     chk.proof()
     ok, log = coq_make(['Ser/Show.vo'])
     if not ok: chk.broken.append(('Ser/Show.vo', log[-800:]))
